@@ -206,6 +206,68 @@ def corpus_cases(prop):
     return res
 
 
+ABORTED = "abort"
+NOT_RUN = "<not-run: more than 12 aborting cases>"
+
+
+def harness_once(binary, cases, cpath, ipath, pfile):
+    with open(cpath, "w") as f:
+        f.write("\n".join(cases) + ("\n" if cases else ""))
+    if os.path.exists(pfile):
+        os.remove(pfile)
+    p = run([binary, "run", cpath, ipath], timeout=3600, env={"OWL_PANIC_FILE": pfile})
+    if p.returncode == 0:
+        return read_lines(ipath)[: len(cases)], None
+    crumb = open(pfile).read() if os.path.exists(pfile) else ""
+    return None, (crumb, (p.stderr or "")[-800:])
+
+
+def run_harness_resilient(binary, cases, cpath, ipath, tag):
+    """The harness catches ordinary panics per case. A panic that cannot unwind (violated `unsafe` precondition check,
+    panic in a nounwind context) or a fatal signal kills the whole process: then the aborting case is located (breadcrumb
+    written by the panic hook, confirmed by running the case alone; bisection otherwise), answered `abort: …`, and the
+    remaining cases are run without it."""
+    pfile = os.path.join(WORK, f"{tag}.lastpanic.txt")
+    todo = list(range(len(cases)))
+    answers = {}
+    for _round in range(12):
+        if not todo:
+            break
+        out, fail = harness_once(binary, [cases[i] for i in todo], cpath, ipath, pfile)
+        if out is not None:
+            for i, o in zip(todo, out):
+                answers[i] = o
+            todo = []
+            break
+        crumb, err = fail
+        culprit = None
+        first = crumb.split("\n", 1)[0].split(" ## step: ")[0].strip()
+        cand = [i for i in todo if cases[i] == first]
+        if cand:
+            o2, f2 = harness_once(binary, [cases[cand[0]]], cpath, ipath, pfile)
+            if o2 is None:
+                culprit = cand[0]
+        if culprit is None:
+            lo, hi = 0, len(todo)          # invariant: the first aborting case lies in todo[lo:hi]
+            while hi - lo > 1:
+                mid = (lo + hi) // 2
+                o2, f2 = harness_once(binary, [cases[i] for i in todo[lo:mid]], cpath, ipath, pfile)
+                if o2 is None:
+                    hi = mid
+                else:
+                    for i, o in zip(todo[lo:mid], o2):
+                        answers[i] = o
+                    lo = mid
+            culprit = todo[lo]
+        msg = " ".join((crumb.split("\n") + ["", ""])[1:3]).strip() or err.strip().splitlines()[-1:] or "process died"
+        answers[culprit] = f"{ABORTED}: {str(msg)[:300]}"
+        log(f"harness aborted on case: {cases[culprit][:160]}  ({str(msg)[:120]})")
+        todo = [i for i in todo if i != culprit and i not in answers]
+    for i in todo:
+        answers[i] = NOT_RUN
+    return [answers[i] for i in range(len(cases))]
+
+
 def run_streams(binary, cases, tag):
     """writes cases, runs harness (impl) and driver (model, oracle); returns lists"""
     os.makedirs(WORK, exist_ok=True)
@@ -214,10 +276,7 @@ def run_streams(binary, cases, tag):
     mpath = os.path.join(WORK, f"{tag}.model.txt")
     with open(cpath, "w") as f:
         f.write("\n".join(cases) + ("\n" if cases else ""))
-    p = run([binary, "run", cpath, ipath], timeout=3600)
-    if p.returncode != 0:
-        raise RuntimeError("harness run failed: " + (p.stderr or "")[-1500:])
-    impl = read_lines(ipath)[: len(cases)]
+    impl = run_harness_resilient(binary, cases, cpath, ipath, tag)
     # the driver is single-threaded: split into chunks and run in parallel
     n = len(cases)
     jobs = max(1, min(16, n // 200 + 1))
@@ -260,7 +319,9 @@ def compare(cases, impl, model, oracle):
     bad, mism = [], []
     for i, c in enumerate(cases):
         im = impl[i] if i < len(impl) else "<missing>"
-        if oracle[i].startswith("bad"):
+        if im == NOT_RUN:
+            continue
+        if oracle[i].startswith("bad") or im.startswith(ABORTED + ":"):
             bad.append(i)
         if model[i] not in ("~", "") and strip_rt(model[i]) != strip_rt(im):
             mism.append(i)
@@ -271,6 +332,10 @@ def write_replay(prop, seed, kind, entries, extra=None):
     d = os.path.join(VERIF, "replays")
     os.makedirs(d, exist_ok=True)
     path = os.path.join(d, f"{prop}-{seed}-{int(time.time())}.json")
+    k = 1
+    while os.path.exists(path):
+        k += 1
+        path = os.path.join(d, f"{prop}-{seed}-{int(time.time())}-{k}.json")
     with open(path, "w") as f:
         json.dump({"property": prop, "kind": kind, "seed": seed, "cases": entries, **(extra or {}),
                    "command": f"./check {prop} --replay {path}"}, f, indent=1)
@@ -376,11 +441,19 @@ def main():
     gpath = os.path.join(WORK, f"{prop}.gen.txt")
     spath = os.path.join(WORK, f"{prop}.stats.json")
     os.makedirs(WORK, exist_ok=True)
+    gen_abort = None
+    pfile = os.path.join(WORK, f"{prop}.genpanic.txt")
+    if os.path.exists(pfile):
+        os.remove(pfile)
     p = run([binary, "gen", "--prop", prop, "--tier", gen_tier, "--seed", str(seed), "--out", gpath, "--stats", spath,
-             "--scale", str(scale)], timeout=3600)
+             "--scale", str(scale)], timeout=3600, env={"OWL_PANIC_FILE": pfile})
     if p.returncode != 0:
-        raise RuntimeError("harness gen failed: " + (p.stderr or "")[-1500:])
-    cases += [l for l in read_lines(gpath) if l.strip()]
+        # the generators drive the real library (legal moves, chain simulation); the library killed the process
+        crumb = open(pfile).read() if os.path.exists(pfile) else ""
+        gen_abort = {"input": crumb.split("\n", 1)[0], "message": " ".join(crumb.split("\n")[1:3]).strip()
+                     or (p.stderr or "")[-300:], "backtrace": crumb[-2500:]}
+        log(f"harness gen aborted inside the library: {gen_abort['input'][:160]} ({gen_abort['message'][:120]})")
+    cases += [l for l in read_lines(gpath) if l.strip()] if os.path.exists(gpath) else []
     try:
         stats = json.load(open(spath))
     except Exception:
@@ -405,6 +478,10 @@ def main():
     def entry(i):
         return {"case": cases[i], "impl": impl[i], "model": model[i], "oracle": oracle[i]}
 
+    if gen_abort:
+        rp = write_replay(prop, seed, "failing-input", [],
+                          {"library_abort_during_generation": gen_abort, "obligation_broken": obligation_broken})
+        violations.append(("failing-input", rp, ""))
     if new_bad:
         sel = shrink_cases(new_bad, cases)
         rp = write_replay(prop, seed, "failing-input", [entry(i) for i in sel],
